@@ -46,3 +46,39 @@ Proof.
   - intros n r E. subst. eexists. split; [reflexivity|]. split; reflexivity.
 Qed.
 Print Assumptions C05_runner_iff_a_node.
+
+(* the statement rules of the generated parser + the listener, as modelled in Syntax/StmtParser.v over
+   the token table extracted from the Go source (family stmtparse compares the model with
+   tree.FromReader on every run, on printed programs, mutated programs, soups and cut scripts):
+   errors reported by the lexer refuse the input whatever the tokens are, input left after the last
+   node is refused, and a dialogue without a node is refused *)
+From YS Require Import Yarn.Ast Generated.ExprTable Syntax.ExprParser Generated.TokenTable Syntax.StmtParser Proofs.StmtParserProofs.
+
+Theorem C05_lexer_errors_refuse_the_input : forall n ts, n <> 0%Z -> from_reader n ts = None.
+Proof. intros n ts H. unfold from_reader. destruct (Z.eqb_spec n 0); [contradiction|reflexivity]. Qed.
+Print Assumptions C05_lexer_errors_refuse_the_input.
+
+Theorem C05_accepted_means_nodes_then_end_of_input : forall n ts d,
+  from_reader n ts = Some d -> n = 0%Z /\ d <> [] /\ exists ts', parse_nodes (S (length ts)) (skip_file_hashtags ts) = Some (d, [(K_EOF, ts')]).
+Proof.
+  intros n ts d. unfold from_reader. destruct (Z.eqb_spec n 0) as [->|]; [|discriminate].
+  unfold parse_dialogue. destruct (parse_nodes _ _) as [[ns r]|]; [|discriminate].
+  destruct ns as [|nd ns]; [discriminate|]. destruct r as [|[k s] r]; [discriminate|].
+  destruct k; try discriminate. destruct r; [|discriminate].
+  intros H. inversion H; subst. split; [reflexivity|]. split; [discriminate|]. exists s. reflexivity.
+Qed.
+Print Assumptions C05_accepted_means_nodes_then_end_of_input.
+
+(* every written statement sequence is accepted and read as what it stands for (C08 states it in full) *)
+Theorem C05_written_statements_are_accepted :
+  forall (er : expr -> list (kind * str)) (ewf : expr -> Prop),
+  (forall e, Forall is_etok (er e)) ->
+  (forall e, ewf e -> parse_expression (fst (take_etoks (er e))) = Some e) ->
+  (forall f args, ewf (ECall f args) -> parse_call_toks (fst (take_etoks (er (ECall f args)))) = Some (f, args)) ->
+  (forall v, ewf v -> (exists a, v = expr_of_atom a) \/ (exists f args, v = ECall f args) ->
+             parse_value_toks (fst (take_etoks (er v))) = Some v) ->
+  forall ws rest fuel,
+    wfs er ewf ws (hd_kind rest) -> starts_statement rest = false -> wssize ws <= fuel ->
+    parse_stmts fuel (pws er ws ++ rest) <> None.
+Proof. intros er ewf H1 H2 H3 H4 ws rest fuel Hw Hs Hf. rewrite (parse_written er ewf H1 H2 H3 H4 ws rest fuel Hw Hs Hf). discriminate. Qed.
+Print Assumptions C05_written_statements_are_accepted.
